@@ -142,7 +142,7 @@ impl Whirlpool {
 //@ struct instructions/initialize_fee_tier.rs InitializeFeeTier
 //@ constraints instructions/initialize_fee_tier.rs InitializeFeeTier
 //@ fn instructions/initialize_fee_tier.rs handler -> r as=initialize_fee_tier_handler canary
-    requires constraints_InitializeFeeTier(old(ctx.accounts)),
+    requires constraints_InitializeFeeTier(old(ctx.accounts), tick_spacing),
     ensures
         r is Ok ==> old(ctx.accounts).fee_authority.skey() == old(ctx.accounts).config.data.fee_authority && old(ctx.accounts).fee_authority.info.is_signer, //# C04
         r is Ok ==> tick_spacing != 0 && default_fee_rate <= 60_000 && final(ctx.accounts).fee_tier.data.tick_spacing == tick_spacing && final(ctx.accounts).fee_tier.data.default_fee_rate == default_fee_rate && final(ctx.accounts).fee_tier.data.whirlpools_config == old(ctx.accounts).config.skey(), //# C19
